@@ -46,7 +46,9 @@ ASSUMPTIONS = [
     'DIM succeeding; values through Session.get_variable (public API)',
     'ERR/ERL, event traps (KEY/PEN/...), DATA pointer, open files and PLAY/DRAW state are not named by the '
     'statement and are not judged',
-    'after NEW the error trap cannot be observed separately (no program left) - not judged there',
+    'the error trap is observed three ways: a direct-mode ERROR 77 must be reported untrapped; PRINT 1/0 must '
+    'behave as in a fresh session (ON ERROR GOTO turns the soft Overflow / Division by zero handling into hard '
+    'errors - that switch belongs to the trap); and, where a program is left, GOTO into a line raising an error',
     'after CHAIN only variables are judged, plus DEF FN / DEFtype for a CHAIN without MERGE and without ALL '
     '(GW-BASIC manual: only then they are not passed on); OPTION BASE after CHAIN is not judged',
     'Out of memory / Out of string space raised by CHAIN or while building is accepted in the tight-memory cases only '
@@ -55,6 +57,7 @@ ASSUMPTIONS = [
 ]
 
 FRESH_RND = None
+FRESH_DIV0 = None
 
 
 # ---------------------------------------------------------------------------
@@ -201,17 +204,38 @@ class Case(object):
 
 
 def _fresh_rnd():
-    global FRESH_RND
+    global FRESH_RND, FRESH_DIV0
     if FRESH_RND is None:
         s = H.new_session()
         r = H.run(s, b'PRINT RND')
         FRESH_RND = r.out
+        r = H.run(s, b'PRINT 1/0')
+        FRESH_DIV0 = (r.out, r.err)
         s.close()
     return FRESH_RND
 
 
+def _fresh_div0():
+    _fresh_rnd()
+    return FRESH_DIV0
+
+
+class ImplError(Exception):
+    """A non-BASIC exception raised inside pcbasic while the harness observes a variable."""
+
+
+def _getvar(s, name):
+    try:
+        return s.get_variable(name)
+    except Exception as e:
+        from mc.core import from_pcbasic
+        if from_pcbasic(e):
+            raise ImplError('get_variable(%r): %s' % (name, H.exc_key(e)))
+        raise
+
+
 def _get(s, name):
-    v = s.get_variable(name)
+    v = _getvar(s, name)
     if isinstance(v, bytearray):
         v = bytes(v)
     return v
@@ -226,6 +250,15 @@ def _tolist(v):
 
 
 def _observe_vars(c, expect, cls, viol):
+    try:
+        return _observe_vars_(c, expect, cls, viol)
+    except ImplError as e:
+        viol('%s/host-exception/%s' % (cls, str(e).split(': ')[-1]),
+             'reading a variable raised a non-BASIC exception: %s' % e)
+        return False
+
+
+def _observe_vars_(c, expect, cls, viol):
     """expect: {'sc': {...}, 'ar': {...}} of what must be present; everything else of the universe absent.
     Returns False if something was wrong."""
     s = c.s
@@ -254,7 +287,7 @@ def _observe_vars(c, expect, cls, viol):
                 name, got if not isinstance(got, bytes) else got[:30], exp if not isinstance(exp, bytes) else exp[:30]))
             ok = False
     for name in ARRAYS:
-        got = _tolist(s.get_variable(name + '()'))
+        got = _tolist(_getvar(s, name + '()'))
         if name in expect['ar']:
             if got != expect['ar'][name]:
                 viol('%s/array-%s/%s' % (cls, 'lost' if not got else 'content-changed', name[-1]),
@@ -309,6 +342,27 @@ def _observe_fn_deftype(c, cls, viol):
 def _observe_reset(c, cls, viol, has_program, builders):
     """Everything must look like a fresh session."""
     empty = _new_model()
+    # error trap first (a surviving trap would hijack every later error-based observation):
+    # an error raised in direct mode must simply be reported
+    r = c.run('ERROR 77')
+    if r.exc is not None:
+        viol('%s/host-exception/%s' % (cls, H.exc_key(r.exc)), 'ERROR 77: %r' % (r.exc,))
+        return
+    if b'TRAPPED' in r.out or r.err not in (-1, 77) or r.erl is not None:
+        viol('%s/error-trap-survives' % cls, 'direct ERROR 77 gave %r (err %r, line %r): the old ON ERROR GOTO '
+             'is still armed' % (r.out[:60], r.err, r.erl))
+        return
+    # ON ERROR GOTO also switches Overflow / Division by zero from "message and continue" to hard
+    # errors; that switch is part of the trap and must be back to the fresh-session behaviour
+    r = c.run('PRINT 1/0')
+    if r.exc is not None:
+        viol('%s/host-exception/%s' % (cls, H.exc_key(r.exc)), 'PRINT 1/0: %r' % (r.exc,))
+        return
+    if (r.out, r.err) != _fresh_div0():
+        viol('%s/error-trap-survives/soft-math-errors-still-hard' % cls,
+             'PRINT 1/0 gives %r (err %r); a fresh session gives %r (err %r)' % (
+                 (r.out[:60], r.err) + _fresh_div0()))
+        return
     if not _observe_vars(c, empty, cls, viol):
         return
     if not _observe_fn_deftype(c, cls, viol):
